@@ -54,11 +54,19 @@ TRUSTED = [
 DOCUMENTED = {101, 102, lib.ERR["struct.error"], lib.ERR["TypeError"], lib.ERR["ValueError"], lib.ERR["UnicodeError"],
               lib.ERR["IndexError"], lib.ERR["RecursionError"], lib.ERR["AttributeError"], lib.ERR["KeyError"]}
 PY_EXACT_FRAMES = 1400     # below this many frames the Python recursion limit binds before CPython 3.12's C-recursion limit
+HS_WALL_LIMIT = 3.0        # seconds per handshake-receiver input (a datagram-sized input decodes in microseconds)
 WALL_LIMIT = 20.0          # seconds per input before the watchdog calls it a hang
 
 
 class Hang(BaseException):
     pass
+
+
+class HangDetected(Exception):
+    pass
+
+
+_HANGS = []     # (receiver name, input) for which an unauthenticated-bytes receiver did not terminate
 
 
 def _alarm(sig, frm):
@@ -587,12 +595,18 @@ def hs_limited(frames, fn, data):
     old = sys.getrecursionlimit()
     sys.setrecursionlimit(SL._depth() + F)
     exc = None
+    signal.signal(signal.SIGALRM, _alarm)
+    signal.setitimer(signal.ITIMER_REAL, HS_WALL_LIMIT)
     try:
         try:
             fn(data)
         except Exception as e:      # noqa
             exc = e
+        except Hang:
+            exc = HangDetected("receiver did not terminate within %.1f s" % HS_WALL_LIMIT)
+            _HANGS.append((getattr(fn, "__name__", "receiver"), bytes(data)))
     finally:
+        signal.setitimer(signal.ITIMER_REAL, 0)
         sys.setrecursionlimit(old)
     return exc
 
@@ -650,6 +664,8 @@ def hs_run(run, hello, shello):
     impl, args = [], []
     with SL.KeyOracle() as ko:
         for data in hcases:
+            if len(_HANGS) >= 3:
+                break          # reported below as oracle violations; do not wait for more
             ko.table.clear()
             exc = hs_limited(FR, conn._recvClientHello, data)
             if isinstance(exc, Reached):
@@ -685,6 +701,8 @@ def hs_run(run, hello, shello):
     impl, args = [], []
     with SL.KeyOracle() as ko:
         for data in ccases:
+            if len(_HANGS) >= 3:
+                break
             ko.table.clear()
             state.clear()
             conn.status = CN.ConnectionStatus.CONNECTING
@@ -703,3 +721,7 @@ def hs_run(run, hello, shello):
             run.nt(("hs-chal", data))
     mres = [m[:1] if m[0] == 0 else m for m in M.call_many("hs_challenge", args)]
     run.compare("hs_challenge", ccases, impl, mres, describe=lambda c: lib.jsonable({"bytes": c[:300], "len": len(c)}))
+    for name, data in _HANGS[:3]:
+        run.oracle_violation("hang", {"family": "hs-receiver", "receiver": name, "bytes": data[:300], "len": len(data)},
+                             "connection.py:" + name)
+    del _HANGS[:]
